@@ -16,6 +16,8 @@
     numbered {"lines": [str] | "text": str, "k": n?} -> {"ok": [[text, indentation, comment|null]], "tight": bool} | {"err": "IndexError", "tight": bool}
              with "k": the records of the lines after `scaleLine k`; "tight" = every line satisfies `openerTight` (hypothesis of
              `numbered_lines_scale_partial`)
+    strip    {"text": str} -> {"out": str, "steps": n, "machine": bool}   (`CommentStrip.strip` = `_remove_source_code_comments`; `machine` = the
+             fuelled small-step machine with `steps` = |text| + 1 units of fuel returns the same text: `remove_comments_total`)
 -/
 import NemoVerif.Drive.Common
 import NemoVerif.Models.Layout
@@ -24,6 +26,7 @@ import NemoVerif.Models.NumberedLines
 import NemoVerif.Models.PreExpand
 import NemoVerif.Models.TextLayout
 import NemoVerif.Models.ImportLoop
+import NemoVerif.Models.CommentStrip
 
 namespace NemoVerif.Drive.C13
 open Lean NemoVerif NemoVerif.Drive
@@ -207,6 +210,12 @@ def handle (op : String) (j : Json) : Except String Json := do
     match TextLayout.seg (TextLayout.tableOracle cs.length table) false 0 cs with
     | .error e => pure (Json.mkObj (("segerr", .str (errName e)) :: extra))
     | .ok ps => pure (Json.mkObj (("seg", Json.arr (ps.map pieceToJson).toArray) :: extra))
+  | "strip" =>
+    let text ← (← j.getObjVal? "text").getStr?
+    let cs := text.toList
+    let out := CommentStrip.strip cs
+    let m := CommentStrip.run (CommentStrip.steps cs) (CommentStrip.init cs) == some out
+    pure (Json.mkObj [("out", safeStr (String.ofList out)), ("steps", Json.num (JsonNumber.fromNat (CommentStrip.steps cs))), ("machine", .bool m)])
   | _ => throw s!"unknown op C13.{op}"
 
 end NemoVerif.Drive.C13
